@@ -19,7 +19,8 @@ ALIGNED = ['P_TA', 'F_TA', 'V_TA', 'M_NA', 'VV_T']
 NONTRIV = ['P_N', 'F_N', 'V_N', 'M_NA']
 CXX20_LISTS = ['V_T', 'V_N', 'F_T', 'F_N', 'M_NA', 'VV_T', 'P_TA']
 NONTRIV_A = ['V_NA', 'PV_NA']   # non-trivial AlignAs objects whose size is not a multiple of the alignment (relocation overlaps)
-S5Q = ['P_T', 'P_TA', 'P_N', 'F_T', 'F_TA', 'F_N', 'V_T', 'V_TA', 'V_N', 'M_T', 'B_T', 'B_TA', 'VB_T', 'P_TB', 'B_B', 'BB_T', 'SB_T']
+S5Q = ['P_T', 'P_TA', 'P_N', 'F_T', 'F_TA', 'F_N', 'V_T', 'V_TA', 'V_N', 'M_T', 'B_T', 'B_TA', 'VB_T', 'P_TB', 'B_B', 'BB_T', 'SB_T',
+       'Z_T']     # Z_T: FixedSize parameters with extent 0 (elements of zero bytes)
 
 K_SEQ = {'SIZE', 'EMPTY', 'CAP', 'SHAPE', 'VALUES', 'RETURNED_ITERATOR', 'STATE', 'OBS_MISSING', 'OBS_OF_ABSENT'}
 K_MEM = {'BOUNDS', 'DATA_RANGE', 'DATA_EXCEEDS_MEMORY_CONSUMPTION', 'MEMORY_CONSUMPTION_EXCEEDS_BLOCK',
@@ -123,7 +124,7 @@ class Units(list):
 # property -> units per tier, judgement kinds routed to it, crash routing, extra filter
 PROPS = {
     'C01': {'level': 'model_checking',
-            'units': {'quick': u('S1', ALL) + u('SR', ['V_T', 'V_N', 'F_N', 'M_NA']) + u('S1sim', ['V_T', 'M_NA'])
+            'units': {'quick': u('S1', ALL + ['Z_T', 'ZP_T']) + u('SR', ['V_T', 'V_N', 'F_N', 'M_NA']) + u('S1sim', ['V_T', 'M_NA'])
                                + u('S1', ['V_N', 'M_T'], ('AE',), ('cxx20',)),
                       'thorough': u('S1', ALL, ('AE', 'NP')) + u('S1', ALL, ('AE',), ('ndebug',)) + u('SR', ALL, ('AE', 'PR'))
                                   + u('S1sim', ALL, ('AE',)) + u('S1', CXX20_LISTS, ('AE',), ('cxx20',))},
@@ -131,8 +132,9 @@ PROPS = {
             'technique': 'TLA+ model (Cntgs.tla) explored by TLC; transition-cover histories replayed on the real '
                          'templates; every step of the recorded trace judged by Trace.tla (sequence semantics)'},
     'C02': {'level': 'model_checking',
-            'units': {'quick': Units(u('S1', ALL) + u('SF', VARYING), ul('quick')),
-                      'thorough': Units(u('S1', ALL, ('AE', 'NP')) + u('SF', VARYING), ul('thorough'))},
+            # S2: a block taken over or reused by an assignment must be large enough for what the vector then promises
+            'units': {'quick': Units(u('S1', ALL) + u('SF', VARYING) + u('S2', ALL, ('NP',)), ul('quick')),
+                      'thorough': Units(u('S1', ALL, ('AE', 'NP')) + u('SF', VARYING) + u('S2', ALL, ('NP', 'AE', 'PR')), ul('thorough'))},
             'kinds': K_MEM, 'crash': crash_mem, 'filter': None,
             'technique': 'TLC-enumerated histories and payload distributions replayed under ASan with poisoned '
                          'redzones; observed addresses judged against block bounds by Trace.tla/Layout.tla'},
@@ -220,14 +222,14 @@ PROPS = {
                          'both elements (values, own block, allocator, layout, live objects) judged by Trace.tla after '
                          'every step'},
     'C13': {'level': 'model_checking',
-            'units': {'quick': u('S5', S5Q) + u('S5e', ['F_T', 'B_T', 'M_T', 'V_N']) + u('S5', ['F_T', 'V_N'], ('AE',), ('cxx20',)), 'thorough': u('S5', ALL + ['B_T', 'B_TA', 'VB_T'], ('AE', 'NP')) + u('S5e', ALL + ['B_T', 'B_TA', 'VB_T', 'BB_T', 'SB_T'], ('AE', 'NP'))},
+            'units': {'quick': u('S5', S5Q) + u('S5e', ['F_T', 'B_T', 'M_T', 'V_N']) + u('S5', ['F_T', 'V_N'], ('AE',), ('cxx20',)), 'thorough': u('S5', ALL + ['B_T', 'B_TA', 'VB_T', 'Z_T', 'ZP_T'], ('AE', 'NP')) + u('S5e', ALL + ['B_T', 'B_TA', 'VB_T', 'BB_T', 'SB_T'], ('AE', 'NP'))},
             'kinds': {'EQUALITY', 'VECTOR_EQUALITY'}, 'crash': crash_any, 'filter': None,
             'technique': 'TLA+ model of two vectors over a three-valued domain (every pair of contents: equal, one field '
                          'different, strict prefix, empty, different spare capacity) explored by TLC; complete truth tables '
                          'of == and != for all operand kinds recorded under rotating junk patterns and compared with '
                          'content equality as DEFINED in the spec (EqElem/EqElems)'},
     'C14': {'level': 'model_checking',
-            'units': {'quick': u('S5', S5Q) + u('S5', ['F_T', 'V_N'], ('AE',), ('cxx20',)), 'thorough': u('S5', ALL + ['B_T', 'B_TA', 'VB_T'], ('AE', 'NP')) + u('S5', ['F_T', 'V_N', 'V_TA', 'P_T'], ('AE',), ('cxx20',))},
+            'units': {'quick': u('S5', S5Q) + u('S5', ['F_T', 'V_N'], ('AE',), ('cxx20',)), 'thorough': u('S5', ALL + ['B_T', 'B_TA', 'VB_T', 'Z_T', 'ZP_T'], ('AE', 'NP')) + u('S5', ['F_T', 'V_N', 'V_TA', 'P_T'], ('AE',), ('cxx20',))},
             'kinds': {'RELATIONAL_INCONSISTENT', 'VECTOR_RELATIONAL_INCONSISTENT', 'COMPARE_DEPENDS_ON_OPERAND_KIND',
                       'NOT_A_STRICT_ORDER', 'COMPARE_DEPENDS_ON_NON_CONTENT', 'VECTOR_ORDER'},
             'crash': crash_any, 'filter': None,
@@ -263,7 +265,7 @@ PROPS = {
                          'operand, ledger, object lifetimes, a follow-up operation on the operand, destruction of '
                          'everything) is judged by Trace.tla'},
     'C18': {'level': 'model_checking',
-            'units': {'quick': u('S1', ALL) + u('S5e', ALL + ['B_T', 'SB_T']), 'thorough': u('S1', ALL, ('AE', 'NP')) + u('S5e', ALL + ['B_T', 'B_TA', 'VB_T', 'BB_T', 'SB_T'], ('AE', 'NP'))},
+            'units': {'quick': u('S1', ALL) + u('S5e', ALL + ['B_T', 'SB_T', 'Z_T']), 'thorough': u('S1', ALL, ('AE', 'NP')) + u('S5e', ALL + ['B_T', 'B_TA', 'VB_T', 'BB_T', 'SB_T'], ('AE', 'NP'))},
             'kinds': ANY, 'crash': crash_any, 'filter': on_empty,
             'technique': 'all model transitions from/to states with no element (fresh, capacity 0, '
                          'default-constructed, emptied) replayed under rotating junk patterns and judged by Trace.tla; '
@@ -286,7 +288,7 @@ GROUP_OPS = {
            'constructor form, get<I> on lvalue / const / rvalue elements, conversions between elements and references, '
            'data()/cbegin()/cend()/front()/back(), range-for over const and mutable vectors',
 }
-C20_CONFIGS = ALL + ['B_T', 'B_TA', 'VB_T', 'P_TB', 'B_B', 'BB_T', 'SB_T']
+C20_CONFIGS = ALL + ['B_T', 'B_TA', 'VB_T', 'P_TB', 'B_B', 'BB_T', 'SB_T', 'Z_T', 'V_NA']
 
 
 def run_c20(tier, seed):
